@@ -36,7 +36,9 @@ impl<T: Copy> AlignedBuffer<T> {
         );
 
         let num_per_chunk = 64 / mem::size_of::<T>();
-        let num_chunks = (len / num_per_chunk) + 1;
+        let num_chunks = (len / num_per_chunk)
+            .checked_add(1)
+            .expect("Number of 64B chunks required overflows usize");
 
         let mut buffer = Vec::with_capacity(num_chunks);
         buffer.extend(std::iter::repeat(AlignedBytes::default()).take(num_chunks));
